@@ -7,6 +7,8 @@ For every generated definition and every generated input:
       rational evaluation bit for bit when the input carries an exact-float certificate, and
       within a rounding tolerance otherwise -- validates the tracer.
 """
+import contextlib
+import io
 import math
 import random
 from fractions import Fraction
@@ -71,7 +73,8 @@ class Traced:
 
     def __init__(self, topic, name, params, f):
         self.topic, self.name, self.params, self.f = topic, name, params, f
-        self.paths = explore(f)
+        with contextlib.redirect_stdout(io.StringIO()):
+            self.paths = explore(f)
 
     @classmethod
     def get(cls, name):
